@@ -232,3 +232,80 @@ def path_cropped_sampled(c, kinds, closed):
     L = path.length()
     want = path.length(T0, T1) if T0 < T1 else path.length(T0, 1) + path.length(0, T1)
     c.ensures('length-is-length(T0,T1)', abs(cr.length() - want) <= 1e-6 * L)
+
+
+# ------------------------------------------------------------------------------------ arcs
+# Arc.reversed / cropped / split build NEW arcs from endpoint parameters and the constructor
+# re-parameterises from scratch (C04).  Proved here: the call-site contract - the constructor
+# receives the endpoint parameters of the piece:
+#   reversed:        (end, radii, phi, fA, not fS, start)
+#   cropped(t0,t1):  (point(t0), radii, phi, |delta*(t1-t0)| > 180, fS, point(t1)), t0 < t1
+#   split(t):        cropped(0,t), cropped(t,1)
+# That the piece of an elliptical arc between two parameters is the arc with these endpoint
+# parameters (same ellipse, same direction, "large" iff it spans more than half a turn of the
+# ellipse parameter) is F.6 of the SVG notes (assumed mathematics); the bounded stand-ins in
+# arcs_bounded.py check the statement itself on floats.
+
+def _arc_ctor_spy(c):
+    calls = []
+
+    def init(ip, f, args, kwargs):
+        names = ['self', 'start', 'radius', 'rotation', 'large_arc', 'sweep', 'end', 'autoscale_radius']
+        got = dict(zip(names, args))
+        got.update(kwargs)
+        calls.append(got)
+        for k, v in got.items():
+            if k != 'self':
+                c.set(got['self'], k, v)
+        return None
+    c.ip.summaries['path.Arc.__init__'] = init
+    return calls
+
+
+@contract('C09', 'path.Arc.reversed', params=[{'_no_bounded': True}])
+def arc_reversed_swaps_the_ends_and_flips_sweep(c):
+    from contracts.c04 import arc_state
+    arc, p = arc_state(c)
+    calls = _arc_ctor_spy(c)
+    r = c.callm(arc, 'reversed')
+    c.ensures('one-Arc-is-built', len(calls) == 1 and c.isinstance(r, 'path.Arc'))
+    g = calls[0]
+    c.ensures('ends-swapped', ops.And(ops.eq(g['start'], p['end']), ops.eq(g['end'], p['start'])))
+    c.ensures('radii-rotation-large_arc-unchanged', ops.And(ops.eq(g['radius'], ops.cx(p['rx'], p['ry'])), ops.eq(g['rotation'], p['rot']),
+                                                            g['large_arc'] is c.get(arc, 'large_arc')))
+    c.ensures('sweep-flipped', c.py_eq(g['sweep'], ops.Not(c.get(arc, 'sweep'))))
+
+
+def _check_crop(c, g, arc, p, t0, t1, tag):
+    delta = p['delta']
+    c.ensures('%s:ends-are-point(t0)-and-point(t1)' % tag, ops.And(ops.eq(g['start'], c.callm(arc, 'point', t0)), ops.eq(g['end'], c.callm(arc, 'point', t1))))
+    c.ensures('%s:radii-rotation-sweep-unchanged' % tag, ops.And(ops.eq(g['radius'], ops.cx(p['rx'], p['ry'])), ops.eq(g['rotation'], p['rot']),
+                                                                 g['sweep'] is c.get(arc, 'sweep')))
+    span = ops.absv(delta * (t1 - t0))
+    c.ensures('%s:large_arc-iff-the-piece-spans-more-than-180-degrees' % tag, ops.Iff(g['large_arc'] == 1, ops.lt(180, span)))
+
+
+@contract('C09', 'path.Arc.cropped', params=[{'_no_bounded': True}])
+def arc_cropped_passes_the_endpoint_parameters_of_the_piece(c):
+    from contracts.c04 import arc_state
+    arc, p = arc_state(c)
+    calls = _arc_ctor_spy(c)
+    t0, t1 = c.real('t0'), c.real('t1')
+    c.assume(ops.And(ops.le(0, t0), ops.lt(t0, t1), ops.le(t1, 1)))
+    r = c.callm(arc, 'cropped', t0, t1)
+    c.ensures('one-Arc-is-built', len(calls) == 1 and c.isinstance(r, 'path.Arc'))
+    _check_crop(c, calls[0], arc, p, t0, t1, 'cropped')
+
+
+@contract('C09', 'path.Arc.split', params=[{'_no_bounded': True}])
+def arc_split_is_two_crops_that_meet_at_point_t(c):
+    from contracts.c04 import arc_state
+    arc, p = arc_state(c)
+    calls = _arc_ctor_spy(c)
+    t = c.real('t')
+    c.assume(ops.And(ops.lt(0, t), ops.lt(t, 1)))
+    a, b = c.items(c.callm(arc, 'split', t))
+    c.ensures('two-Arcs-are-built', len(calls) == 2)
+    _check_crop(c, calls[0], arc, p, 0, t, 'left')
+    _check_crop(c, calls[1], arc, p, t, 1, 'right')
+    c.ensures('pieces-meet-at-point(t)', ops.eq(calls[0]['end'], calls[1]['start']))
